@@ -43,7 +43,8 @@ ASSUMPTIONS = ["basin definitions are unique per edge (distinct names), so inher
                "skipping only affects true cycles"]
 MIN_EVALS = {"c14.offered_iff_model": 1000, "c14.open_bound": 300, "c14.remote_isolation": 8, "c14.unreachable_not_offered": 8}
 WATCHDOG_S = {"quick": 400, "thorough": 3000}
-IDS = ["idA", "idA-sub", "idB", None]
+# (identifiers are compared as they are: "ida" is another measurement than "idA")
+IDS = ["idA", "idA-sub", "idB", None, "ida", "IDA-sub"]
 
 
 def plan(tier, seed):
@@ -203,7 +204,7 @@ def decorate(rng, k, pairs, uniform_ids=None):
         if mode < 0.35:
             ids = ["idA"] * k
         else:
-            ids = [IDS[int(rng.choice(4, p=[.45, .25, .2, .1]))] for _ in range(k)]
+            ids = [IDS[int(rng.choice(6, p=[.4, .2, .15, .1, .1, .05]))] for _ in range(k)]
     return edges, ids
 
 
@@ -498,7 +499,8 @@ def run_replace(ctx, idx, rng, tmp):
         btype = str(rng.choice(["remote", "internal"]))
         _rewrite_basin_type(ref, btype)
         ctx.count(f"basin_definitions_with_type[{btype}]_format[hdf5]")
-    seq = [str(v) for v in rng.choice(["idA", "idB", "idA-sub", "none"], int(rng.integers(2, 5)))]
+    seq = [str(v) for v in rng.choice(["idA", "idB", "idA-sub", "none", "ida", "IDA"],
+                                      int(rng.integers(2, 5)))]
     if len(set(seq)) == 1:
         seq[-1] = "idB" if seq[0] != "idB" else "idA"
     hist = []
